@@ -523,4 +523,42 @@ theorem C20_run_returns_unrepaired_host_fails :
 example : (run .fixed (wedgeWitness ++ [.step true, .step true])).map (fun s => (s.st, s.ret, s.nFatal, s.nStale, s.sdLog, s.provSd)) =
     some (.closed, some true, 0, 1, [1], 1) := by rfl
 
+/-! ## "a configuration-watch error stops the collector": the watcher is a lossless queue (round 7)
+
+`post watchOk/watchErr` = a provider goroutine calls the resolver's watcher func (`Resolver.onChange`, a BLOCKING send on a
+channel of capacity 1): the notification sits in the buffer or its sender waits behind it — either way it is outstanding
+(`nWatchOk`, `nWatchErr`) until the select receives it. A non-blocking send would drop what arrives behind an unconsumed one. -/
+
+/-- an outstanding error notification can only go away by being received: along any continuation that does not contain the
+select's receive of a watch error, it stays outstanding — whatever else is received, however many reloads happen -/
+theorem C20_watch_error_never_lost (v : Variant) (s s' : S) (ls : List Label) (hn : ∀ l ∈ ls, l ≠ .pick .watchErr)
+    (h : runFrom v s ls = some s') : s.nWatchErr ≤ s'.nWatchErr := by
+  induction ls generalizing s with
+  | nil => simp only [runFrom, Option.some.injEq] at h; subst h; exact Nat.le_refl _
+  | cons l ls ih =>
+    simp only [runFrom] at h
+    cases hf : fire v s l with
+    | none => simp [hf] at h
+    | some s1 =>
+      simp only [hf, Option.bind_some] at h
+      exact Nat.le_trans (watchErr_fire v (hn l (by simp)) hf) (ih s1 (fun l' hl' => hn l' (by simp [hl'])) h)
+
+/-- … while it is outstanding the collector cannot be at rest, and whenever the Run goroutine is in the select it can be
+received, which leaves the loop (then `C20_stop_returns`, `C20_ends_closed`: Run returns, Closed, service and providers shut
+down exactly once) -/
+theorem C20_watch_error_stops_collector (v : Variant) (s : S) (h : s.nWatchErr > 0) :
+    ¬ Quiescent s ∧ (s.pc = .select → ∃ s', fire v s (.pick .watchErr) = some s' ∧ s'.stop = some .watchErr ∧ s'.pc = .shut1) := by
+  refine ⟨?_, ?_⟩
+  · intro ⟨_, ha, _⟩
+    simp [S.anyReady] at ha
+    omega
+  · intro hpc
+    simp [fire, hpc, pickEv, leave, S.emit, h]
+
+/-- non-vacuity (= corpus case 4 of the harness, the round-7 seed's history): a change and then an error are notified while
+the collector starts; the change is received first, the reload completes, the error is still outstanding and stops the run -/
+example : (run .fixed [.begin, .step true, .step true, .post .watchOk, .post .watchErr, .step true, .step true, .pick .watchOk,
+    .step true, .step true, .step true, .step true, .step true, .step true]).map (fun s => (s.pc, s.gen, s.nWatchOk, s.nWatchErr)) =
+    some (.select, 2, 0, 1) := by decide
+
 end OtelVerif.C20
